@@ -177,9 +177,15 @@ def oracle(c, obs):
         from props import C08 as R
         names = []
         for ln in data.replace(b'\r\n', b'\n').replace(b'\r', b'\n').split(b'\n'):
-            k = ln.find(b' ')
-            if k > 0 and ln[:k].strip().isdigit():
-                names.append(ln[k + 1:])
+            # a symbol line as the reader sees it: white space (bytes 9..32) is skipped in front of the atom number, ONE further byte
+            # (whatever it is) separates it from the name, the name runs to the line end (false alarm of the thorough run #2: a line
+            # with a leading blank was not recognised as a symbol line)
+            t = ln.lstrip(bytes(range(9, 33)))
+            k = 0
+            while k < len(t) and 48 <= t[k] <= 57:
+                k += 1
+            if k > 0 and k < len(t):
+                names.append(t[k + 1:])
         n_edge = sum(1 for nm in names if R.ref_edge(nm) is not None)
         n_heu = sum(1 for nm in names if R.ref_heu(nm) is not None)
         cl = C.dec_all(obs[4:])[0]
